@@ -70,7 +70,11 @@ Migrates(s) ==
     {[E0 EXCEPT !.kind = "Migrate", !.creator = sh.sp, !.provider = sh.sp, !.datas = <<OrderOf(s, sh.order).data>>] :
         sh \in {x \in Rng(s.shards) : x.status = SCompleted /\ HasOrder(s, x.order)}}
 Claims(s) == {[E0 EXCEPT !.kind = "Claim", !.creator = Nodes[i]] : i \in 1..Len(Nodes)}
-BlocksEv(s) == {[E0 EXCEPT !.kind = "Blocks", !.n = 1]}
+\* time is compressed: advance one block, or straight to (and just past) the next scheduled height
+BlocksEv(s) ==
+    LET nx == NextScheduled(Cfg, Work(s))
+        d == IF nx = -1 THEN 1 ELSE nx - s.h
+    IN {[E0 EXCEPT !.kind = "Blocks", !.n = n] : n \in {x \in {1, d, d + 1} : x >= 1 /\ x <= 12000}}
 
 \* ---------------------------------------------------------------- generator alphabet (real constants, adversarial shapes)
 \* parameters are picked by position so that each kind contributes few successors (the simulator picks successors uniformly)
@@ -137,7 +141,7 @@ Init ==
     /\ bad = {}
     /\ lastEv = E0
     /\ depth = 0
-    /\ hist = IF Family = "gen" THEN SetupEvents ELSE <<>>
+    /\ hist = SetupEvents
 
 Next ==
     /\ depth < MaxEvents
@@ -151,7 +155,7 @@ Next ==
            /\ bad' = FailedNames(x, g2)
            /\ lastEv' = e
            /\ depth' = depth + 1
-           /\ hist' = IF Family = "gen" THEN Append(hist, e) ELSE hist
+           /\ hist' = Append(hist, e)
 
 Spec == Init /\ [][Next]_vars
 
